@@ -1,8 +1,28 @@
 """C20 extractor: control skeleton of the functions that touch os.environ -> coq/Generated/EnvSkeletons.v
 
-Fail-closed: any use of os.environ (or os.putenv/unsetenv) that is not one of the recognised idioms raises
-Unrecognised.  Statements that do not touch the environment collapse to `Call` (they may raise) or `Skip`
-(trivially safe).  Helpers of the same module that touch the environment are inlined under `Scope`.
+Two parts.
+
+1. `Graph`: a conservative call graph over every module of <repo>/pydl (tests excluded).  For every function,
+   method and module body it records the environment operations it performs directly (reads with their
+   variable names, writes, and uses that cannot be classified -- counted as writes) and the pydl functions it may
+   reach: names resolved through the module's own definitions and its (absolute or relative, module- or
+   function-level) imports, attributes of imported pydl modules, every method of an instantiated/mentioned class,
+   and -- for `x.attr` with an unknown `x` -- every method of that name in any pydl class.  From it:
+     * may_write(f): f, or anything reachable from f, contains an os.environ write
+       (item assignment, del, pop, setdefault, update, clear, popitem, putenv/unsetenv, or an unclassified use);
+     * reads(f): the environment variables read by anything reachable from f.
+
+2. `Tr`: the skeleton translator.  A statement of an entry point "touches" the environment when it mentions
+   os.environ directly or references a function with may_write.  A call `g(...)` by plain name that resolves
+   to exactly one pydl function (in whatever module) with may_write(g) is inlined under `Scope`; every other
+   reference to a may_write function (inside a loop, a comprehension, through an attribute, as a value ...) cannot
+   be placed in the skeleton and is recorded in `uninlined_writers` with the route to the write.  The generated
+   file states `uninlined_writers`, and Props.v has the obligation `uninlined_writers = []`: "collaborators do
+   not write the environment" is therefore re-checked from the source on every run.
+
+Fail-closed: any use of os.environ (or os.putenv/unsetenv) in an entry point / inlined helper that is not one of the
+recognised idioms raises Unrecognised.  Statements that do not touch the environment collapse to `Call` (they may
+raise) or `Skip` (trivially safe).
 """
 import ast
 import os
@@ -12,24 +32,403 @@ class Unrecognised(Exception):
     pass
 
 
+ENV_WRITE_METHODS = ('pop', 'setdefault', 'update', 'clear', 'popitem', '__setitem__', '__delitem__', '__ior__')
+ENV_READ_METHODS = ('get', '__getitem__', '__contains__')
+ENV_READALL_METHODS = ('keys', 'values', 'items', 'copy', '__iter__', '__len__')
+OS_ENV_FUNCS = {'getenv': 'read', 'getenvb': 'read', 'putenv': 'write', 'unsetenv': 'write'}
+DYNAMIC_NAMES = ('eval', 'exec', '__import__', 'compile')
+
+
 def is_environ(node):
     return (isinstance(node, ast.Attribute) and node.attr == 'environ'
             and isinstance(node.value, ast.Name) and node.value.id == 'os')
 
 
+def const_key(node):
+    if isinstance(node, ast.Constant) and isinstance(node.value, str):
+        return node.value
+    return '*'
+
+
+def parents_of(root, skip_function_bodies=False):
+    """(node, parent) for every node below root.  With skip_function_bodies the bodies of function definitions are
+    not entered (module-level code: a def only evaluates its decorators and defaults)."""
+    stack = [(root, None)]
+    while stack:
+        node, parent = stack.pop()
+        yield node, parent
+        if skip_function_bodies and isinstance(node, (ast.FunctionDef, ast.AsyncFunctionDef, ast.Lambda)) and parent is not None:
+            kids = list(getattr(node, 'decorator_list', [])) + list(node.args.defaults) + [d for d in node.args.kw_defaults if d is not None]
+        else:
+            kids = list(ast.iter_child_nodes(node))
+        for k in kids:
+            stack.append((k, node))
+
+
+class ModInfo(object):
+    def __init__(self, rel, dotted, tree):
+        self.rel = rel
+        self.dotted = dotted
+        self.is_pkg = rel.endswith('__init__.py')
+        self.pkg = dotted if self.is_pkg else dotted.rsplit('.', 1)[0]
+        self.tree = tree
+        self.funcs = {}       # qualname -> FunctionDef   ('f' or 'Class.m')
+        self.classes = {}     # name -> ClassDef
+        self.imports = {}     # local name -> ('mod', dotted) | ('obj', dotted module, name)
+        self.envnames = set()     # local names bound to os.environ by `from os import environ [as x]`
+        self.osfuncs = {}         # local name -> getenv/putenv/unsetenv imported from os
+        for n in tree.body:
+            if isinstance(n, (ast.FunctionDef, ast.AsyncFunctionDef)):
+                self.funcs[n.name] = n
+            elif isinstance(n, ast.ClassDef):
+                self.classes[n.name] = n
+                for m in n.body:
+                    if isinstance(m, (ast.FunctionDef, ast.AsyncFunctionDef)):
+                        self.funcs['%s.%s' % (n.name, m.name)] = m
+        for n in ast.walk(tree):
+            if isinstance(n, ast.Import):
+                for a in n.names:
+                    if a.name == 'pydl' or a.name.startswith('pydl.'):
+                        if a.asname:
+                            self.imports[a.asname] = ('mod', a.name)
+                        else:
+                            self.imports['pydl'] = ('mod', 'pydl')
+            elif isinstance(n, ast.ImportFrom):
+                base = self.resolve_from(n)
+                for a in n.names:
+                    local = a.asname or a.name
+                    if base == 'os':
+                        if a.name in ('environ', 'environb'):
+                            self.envnames.add(local)
+                        elif a.name in OS_ENV_FUNCS:
+                            self.osfuncs[local] = a.name
+                    elif base is not None and (base == 'pydl' or base.startswith('pydl.')):
+                        self.imports[local] = ('obj', base, a.name)
+
+    def resolve_from(self, n):
+        if n.level == 0:
+            return n.module
+        parts = self.pkg.split('.')
+        if n.level - 1 > 0:
+            parts = parts[:len(parts) - (n.level - 1)]
+        if not parts:
+            return None
+        return '.'.join(parts + ([n.module] if n.module else []))
+
+
+class Graph(object):
+    def __init__(self, repo):
+        self.repo = repo
+        self.mods = {}
+        self.by_dotted = {}
+        top = os.path.join(repo, 'pydl')
+        for root, dirs, files in os.walk(top):
+            dirs[:] = sorted(d for d in dirs if d not in ('tests', '__pycache__'))
+            for fn in sorted(files):
+                if not fn.endswith('.py'):
+                    continue
+                path = os.path.join(root, fn)
+                rel = os.path.relpath(path, repo)
+                dotted = rel[:-3].replace(os.sep, '.')
+                if dotted.endswith('.__init__'):
+                    dotted = dotted[:-9]
+                try:
+                    tree = ast.parse(open(path).read())
+                except SyntaxError as e:
+                    raise Unrecognised('cannot parse %s: %s' % (rel, e))
+                m = ModInfo(rel, dotted, tree)
+                self.mods[rel] = m
+                self.by_dotted[dotted] = m
+        self.methods_by_name = {}
+        for m in self.mods.values():
+            for q in m.funcs:
+                if '.' in q:
+                    self.methods_by_name.setdefault(q.split('.', 1)[1], set()).add((m.rel, q))
+        self.all_methods = set(f for s in self.methods_by_name.values() for f in s)
+        # per unit: direct environment operations and references
+        self.ops = {}      # funcid -> {'reads': set, 'writes': [(what, line)], 'dynamic': [(what, line)]}
+        self.refs = {}     # funcid -> set(funcid)
+        for m in self.mods.values():
+            self.ops[(m.rel, '<module>')], self.refs[(m.rel, '<module>')] = self.analyse(m, m.tree, True)
+            for q, node in m.funcs.items():
+                self.ops[(m.rel, q)], self.refs[(m.rel, q)] = self.analyse(m, node, False)
+        # may_write with a witness route
+        self.route = {}    # funcid -> list of funcids ending at a direct writer
+        for f, o in self.ops.items():
+            if o['writes']:
+                self.route[f] = [f]
+        changed = True
+        while changed:
+            changed = False
+            for f, rs in self.refs.items():
+                if f in self.route:
+                    continue
+                for g in sorted(rs):
+                    if g in self.route:
+                        self.route[f] = [f] + self.route[g]
+                        changed = True
+                        break
+
+    # ---------- environment mentions
+    def env_object(self, m, node):
+        if isinstance(node, ast.Attribute) and node.attr in ('environ', 'environb'):
+            return True
+        return isinstance(node, ast.Name) and node.id in m.envnames
+
+    def os_env_func(self, m, node):
+        if isinstance(node, ast.Attribute) and node.attr in OS_ENV_FUNCS:
+            return node.attr
+        if isinstance(node, ast.Name) and node.id in m.osfuncs:
+            return m.osfuncs[node.id]
+        return None
+
+    def env_ops_in(self, m, root, module_level=False):
+        """direct environment operations below root: (kind, variable-or-'*', what, line), kind in read/write"""
+        out0 = []
+        out = out0
+        pm = {}
+        nodes = []
+        assigned = {}     # local name -> values assigned to it (a string constant, or None for anything else)
+        for node, parent in parents_of(root, module_level):
+            pm[id(node)] = parent
+            nodes.append(node)
+            if isinstance(node, ast.Name) and isinstance(node.ctx, (ast.Store, ast.Del)):
+                v = parent.value if isinstance(parent, ast.Assign) and len(parent.targets) == 1 and parent.targets[0] is node else None
+                assigned.setdefault(node.id, []).append(v.value if isinstance(v, ast.Constant) and isinstance(v.value, str) else None)
+            elif isinstance(node, ast.arg):
+                assigned.setdefault(node.arg, []).append(None)
+
+        def const_key(k):
+            # a key held in a local name that is only ever assigned string constants: every one of them
+            if isinstance(k, ast.Constant) and isinstance(k.value, str):
+                return k.value
+            if isinstance(k, ast.Name) and assigned.get(k.id) and all(v is not None for v in assigned[k.id]):
+                return tuple(sorted(set(assigned[k.id])))
+            return '*'
+        for node in nodes:
+            parent = pm[id(node)]
+            fn = self.os_env_func(m, node)
+            if fn is not None:
+                if isinstance(parent, ast.Call) and parent.func is node:
+                    key = const_key(parent.args[0]) if parent.args else '*'
+                    out.append((OS_ENV_FUNCS[fn], key, 'os.%s' % fn, node.lineno))
+                else:
+                    out.append(('write', '*', 'os.%s used as a value' % fn, node.lineno))
+                continue
+            if not self.env_object(m, node):
+                continue
+            line = node.lineno
+            if isinstance(parent, ast.Subscript) and parent.value is node:
+                key = const_key(parent.slice)
+                if isinstance(parent.ctx, ast.Load):
+                    out.append(('read', key, 'environ[...]', line))
+                elif isinstance(parent.ctx, ast.Del):
+                    out.append(('write', key, 'del environ[...]', line))
+                else:
+                    out.append(('write', key, 'environ[...] = ...', line))
+            elif isinstance(parent, ast.Attribute) and parent.value is node:
+                gp = pm[id(parent)]
+                meth = parent.attr
+                if isinstance(gp, ast.Call) and gp.func is parent:
+                    key = const_key(gp.args[0]) if gp.args else '*'
+                    if meth in ENV_READ_METHODS:
+                        out.append(('read', key, 'environ.%s' % meth, line))
+                    elif meth in ENV_READALL_METHODS:
+                        out.append(('read', '*', 'environ.%s' % meth, line))
+                    elif meth in ENV_WRITE_METHODS:
+                        out.append(('write', key if meth in ('pop', 'setdefault', '__setitem__', '__delitem__') else '*',
+                                    'environ.%s' % meth, line))
+                    else:
+                        out.append(('write', '*', 'environ.%s (unclassified)' % meth, line))
+                else:
+                    out.append(('write', '*', 'environ.%s taken as a value' % meth, line))
+            elif isinstance(parent, ast.Compare) and any(c is node for c in parent.comparators) \
+                    and all(isinstance(op, (ast.In, ast.NotIn)) for op in parent.ops):
+                out.append(('read', const_key(parent.left), 'in environ', line))
+            elif isinstance(parent, (ast.For, ast.comprehension)) and parent.iter is node:
+                out.append(('read', '*', 'iteration over environ', line))
+            else:
+                out.append(('write', '*', 'environ used as an object (%s)' % type(parent).__name__, line))
+        out = []
+        for kind, key, what, line in out0:
+            for k in (key if isinstance(key, tuple) else (key,)):
+                out.append((kind, k, what, line))
+        return out
+
+    # ---------- references
+    def module_units(self, dotted):
+        """module body of `dotted` and of its parent packages (importing a.b.c runs a, a.b, a.b.c)"""
+        out = set()
+        parts = dotted.split('.')
+        for i in range(1, len(parts) + 1):
+            m = self.by_dotted.get('.'.join(parts[:i]))
+            if m is not None:
+                out.add((m.rel, '<module>'))
+        return out
+
+    def class_methods(self, m, cname, depth=0):
+        out = set()
+        c = m.classes.get(cname)
+        if c is None or depth > 8:
+            return out
+        for q in m.funcs:
+            if q.startswith(cname + '.'):
+                out.add((m.rel, q))
+        for b in c.bases:
+            if isinstance(b, ast.Name):
+                out |= self.resolve_name(m, b.id, depth + 1)
+        return out
+
+    def resolve_name(self, m, name, depth=0):
+        if depth > 8:
+            return set()
+        if name in m.funcs:
+            return {(m.rel, name)}
+        if name in m.classes:
+            return self.class_methods(m, name, depth)
+        imp = m.imports.get(name)
+        if imp is not None and imp[0] == 'obj':
+            m2 = self.by_dotted.get(imp[1])
+            if m2 is not None and m2 is not m:
+                return self.resolve_name(m2, imp[2], depth + 1)
+        return set()
+
+    def module_of_expr(self, m, node):
+        """the pydl module an expression denotes (imported name or dotted chain), or None"""
+        if isinstance(node, ast.Name):
+            imp = m.imports.get(node.id)
+            if imp is None:
+                return None
+            if imp[0] == 'mod':
+                return self.by_dotted.get(imp[1])
+            return self.by_dotted.get(imp[1] + '.' + imp[2])
+        if isinstance(node, ast.Attribute):
+            base = self.module_of_expr(m, node.value)
+            if base is not None:
+                return self.by_dotted.get(base.dotted + '.' + node.attr)
+        return None
+
+    def refs_in(self, m, root, module_level=False):
+        """(funcid, node, inlinable): pydl functions referenced below root.  inlinable: a call by plain name that
+        resolves to exactly one module-level function."""
+        out = []
+        pm = {}
+        nodes = []
+        for node, parent in parents_of(root, module_level):
+            pm[id(node)] = parent
+            nodes.append(node)
+        for node in nodes:
+            parent = pm[id(node)]
+            if isinstance(node, ast.Name) and isinstance(node.ctx, ast.Load):
+                targets = self.resolve_name(m, node.id)
+                called = isinstance(parent, ast.Call) and parent.func is node
+                inl = called and len(targets) == 1 and '.' not in next(iter(targets))[1]
+                for t in sorted(targets):
+                    out.append((t, node, inl))
+                if node.id in DYNAMIC_NAMES and called:
+                    out.append((('<dynamic>', node.id), node, False))
+                if node.id == 'getattr' and called and not (len(parent.args) >= 2 and isinstance(parent.args[1], ast.Constant)):
+                    for t in sorted(self.all_methods):
+                        out.append((t, node, False))
+            elif isinstance(node, ast.Attribute) and isinstance(node.ctx, ast.Load):
+                mod = self.module_of_expr(m, node.value)
+                if mod is not None:
+                    for t in sorted(self.resolve_name(mod, node.attr)):
+                        out.append((t, node, False))
+                else:
+                    for t in sorted(self.methods_by_name.get(node.attr, ())):
+                        out.append((t, node, False))
+                if node.attr == 'import_module':
+                    out.append((('<dynamic>', 'import_module'), node, False))
+            elif isinstance(node, ast.Import):
+                for a in node.names:
+                    for u in sorted(self.module_units(a.name)):
+                        if u[0] != m.rel:
+                            out.append((u, node, False))
+            elif isinstance(node, ast.ImportFrom):
+                base = m.resolve_from(node)
+                if base is not None:
+                    for u in sorted(self.module_units(base)):
+                        if u[0] != m.rel:
+                            out.append((u, node, False))
+                    for a in node.names:
+                        for u in sorted(self.module_units(base + '.' + a.name)):
+                            if u[0] != m.rel:
+                                out.append((u, node, False))
+        return out
+
+    def analyse(self, m, root, module_level):
+        ops = {'reads': set(), 'writes': [], 'dynamic': []}
+        for kind, key, what, line in self.env_ops_in(m, root, module_level):
+            if kind == 'read':
+                ops['reads'].add(key)
+            else:
+                ops['writes'].append(('%s %s' % (what, key), line))
+        refs = set()
+        for t, node, _ in self.refs_in(m, root, module_level):
+            if t[0] == '<dynamic>':
+                ops['dynamic'].append((t[1], node.lineno))
+                ops['writes'].append(('dynamic code (%s)' % t[1], node.lineno))
+            else:
+                refs.add(t)
+        return ops, refs
+
+    # ---------- queries
+    def may_write(self, f):
+        return f in self.route
+
+    def describe_route(self, f):
+        r = self.route.get(f)
+        if not r:
+            return ''
+        last = r[-1]
+        what, line = self.ops[last]['writes'][0]
+        return ' -> '.join('%s:%s' % (os.path.basename(x[0]), x[1]) for x in r) + ' [%s, %s line %d]' % (what, last[0], line)
+
+    def reach(self, f):
+        seen = set()
+        todo = [f]
+        while todo:
+            x = todo.pop()
+            if x in seen or x not in self.refs:
+                continue
+            seen.add(x)
+            todo.extend(self.refs[x])
+        return seen
+
+    def reads(self, f):
+        out = set()
+        for x in self.reach(f):
+            out |= self.ops[x]['reads']
+        return out
+
+    def writers(self, f):
+        return sorted(x for x in self.reach(f) if self.ops[x]['writes'])
+
+
+def fid(f):
+    return '%s:%s' % f
+
+
 class Tr(object):
-    def __init__(self, module_tree, modname):
-        self.tree = module_tree
-        self.modname = modname
-        self.funcs = {n.name: n for n in module_tree.body if isinstance(n, ast.FunctionDef)}
+    def __init__(self, graph, rel):
+        self.graph = graph
+        self.modstack = [graph.mods[rel]]
         self.vars = {}      # env var name -> index
         self.slots = {}     # slot key -> index
         self.ncall = 0
         self.nset = 0
-        self._touch_cache = {}
-        self.inlined = []
+        self.inlined = []       # funcids
+        self.uninlined = []     # strings
+        self.stack = []         # funcids being inlined (recursion guard)
+        self.scope = [0]
+        self.nscope = 0
 
     # ---------- helpers
+    @property
+    def mod(self):
+        return self.modstack[-1]
+
     def var(self, name):
         return self.vars.setdefault(name, len(self.vars))
 
@@ -51,11 +450,12 @@ class Tr(object):
         raise Unrecognised('not a constant string: %s' % ast.dump(node)[:80])
 
     def slot_key(self, node, bind):
-        """A saved-value location: a plain name, or dict[constant key] (the dict name is ignored)."""
+        """A saved-value location: a plain local name (scoped per inlined function), or dict[constant key]
+        (the dict travels between functions, so its name is ignored)."""
         if isinstance(node, ast.Name):
             if node.id in bind and isinstance(bind[node.id], tuple) and bind[node.id][0] == 'slot':
                 return bind[node.id][1]
-            return node.id
+            return node.id if self.scope[-1] == 0 else '%s#%d' % (node.id, self.scope[-1])
         if isinstance(node, ast.Subscript):
             try:
                 return "['%s']" % self.const_str(node.slice, bind)
@@ -63,48 +463,39 @@ class Tr(object):
                 return None
         return None
 
+    def direct(self, node):
+        """does the code mention the environment itself (any form the graph scanner knows)?"""
+        return bool(self.graph.env_ops_in(self.mod, node))
+
+    def deep(self, node):
+        """references below node to functions that may write the environment: [(funcid, node, inlinable)]"""
+        return [(t, n, i) for t, n, i in self.graph.refs_in(self.mod, node) if t[0] != '<dynamic>' and self.graph.may_write(t)] + \
+               [(t, n, False) for t, n, i in self.graph.refs_in(self.mod, node) if t[0] == '<dynamic>']
+
     def touches(self, node):
-        for n in ast.walk(node):
+        return self.direct(node) or bool(self.deep(node))
+
+    def record_uninlined(self, node, why):
+        """every may-write reference below node is given up (reported; the obligation uninlined_writers = [] fails)"""
+        for t, n, _ in self.deep(node):
+            if t[0] == '<dynamic>':
+                msg = 'dynamic code (%s) at %s line %d' % (t[1], self.mod.rel, n.lineno)
+            else:
+                msg = '%s referenced at %s line %d %s; route: %s' % (fid(t), self.mod.rel, n.lineno, why, self.graph.describe_route(t))
+            if msg not in self.uninlined:
+                self.uninlined.append(msg)
+
+    def check_strict(self, st):
+        """the idiom recognisers below know `os.environ` and `os.getenv` only: any other spelling fails closed"""
+        n_graph = len(self.graph.env_ops_in(self.mod, st))
+        n_strict = 0
+        for n in ast.walk(st):
             if is_environ(n):
-                return True
-            if isinstance(n, ast.Attribute) and isinstance(n.value, ast.Name) and n.value.id == 'os' \
-                    and n.attr in ('putenv', 'unsetenv', 'environb'):
-                return True
-            if isinstance(n, ast.Call) and isinstance(n.func, ast.Name) and n.func.id in self.funcs \
-                    and self.func_touches(n.func.id):
-                return True
-        return False
-
-    def writes_env(self, node):
-        """Does this code possibly WRITE the environment (directly, or through a helper of this module)?
-        Pure reads (environ[K], environ.get(K), K in environ) in helpers need no inlining: they cannot
-        change the environment and are covered by `Call` (may raise)."""
-        for n in ast.walk(node):
-            if isinstance(n, ast.Subscript) and is_environ(n.value) and not isinstance(n.ctx, ast.Load):
-                return True
-            if isinstance(n, ast.Call) and isinstance(n.func, ast.Attribute) and is_environ(n.func.value) \
-                    and n.func.attr not in ('get', 'keys', 'values', 'items', 'copy', '__contains__', '__getitem__'):
-                return True
-            if isinstance(n, ast.Attribute) and isinstance(n.value, ast.Name) and n.value.id == 'os' \
-                    and n.attr in ('putenv', 'unsetenv', 'environb'):
-                return True
-            if isinstance(n, ast.Call):
-                # os.environ handed to something else as an object: unknown effect
-                for a in list(n.args) + [k.value for k in n.keywords]:
-                    if is_environ(a):
-                        return True
-                if isinstance(n.func, ast.Name) and n.func.id in self.funcs and self.func_touches(n.func.id):
-                    return True
-        return False
-
-    def func_touches(self, name):
-        """helper functions are inlined iff they may write the environment"""
-        if name in self._touch_cache:
-            return self._touch_cache[name]
-        self._touch_cache[name] = False   # recursion guard
-        r = any(self.writes_env(st) for st in self.funcs[name].body)
-        self._touch_cache[name] = r
-        return r
+                n_strict += 1
+            elif isinstance(n, ast.Attribute) and isinstance(n.value, ast.Name) and n.value.id == 'os' and n.attr in OS_ENV_FUNCS:
+                n_strict += 1
+        if n_graph != n_strict:
+            raise Unrecognised('environment reached through an alias or an unusual spelling at %s line %d' % (self.mod.rel, st.lineno))
 
     def call(self):
         self.ncall += 1
@@ -141,12 +532,19 @@ class Tr(object):
             return self.const_str(node.slice, bind)
         return None
 
-    def env_method(self, node, bind):
-        """os.environ.get(K[, None]) / .pop(K, None) -> (method, K)"""
+    def env_method(self, node, bind, in_expr=False):
+        """os.environ.get(K[, None]) / os.getenv(K[, None]) / .pop(K, None) -> (method, K)"""
+        if isinstance(node, ast.Call) and isinstance(node.func, ast.Attribute) and isinstance(node.func.value, ast.Name) \
+                and node.func.value.id == 'os' and node.func.attr == 'getenv':
+            if not 1 <= len(node.args) <= 2 or node.keywords:
+                raise Unrecognised('os.getenv with unusual arguments')
+            if len(node.args) == 2 and not in_expr and not (isinstance(node.args[1], ast.Constant) and node.args[1].value is None):
+                raise Unrecognised('os.getenv with a non-None default')
+            return ('get', self.const_str(node.args[0], bind))
         if isinstance(node, ast.Call) and isinstance(node.func, ast.Attribute) and is_environ(node.func.value):
             m = node.func.attr
             if m == 'get' and 1 <= len(node.args) <= 2 and not node.keywords:
-                if len(node.args) == 2 and not (isinstance(node.args[1], ast.Constant) and node.args[1].value is None):
+                if len(node.args) == 2 and not in_expr and not (isinstance(node.args[1], ast.Constant) and node.args[1].value is None):
                     raise Unrecognised('environ.get with a non-None default')
                 return ('get', self.const_str(node.args[0], bind))
             if m == 'pop' and len(node.args) == 2 and isinstance(node.args[1], ast.Constant) and node.args[1].value is None:
@@ -154,27 +552,32 @@ class Tr(object):
             raise Unrecognised('os.environ.%s(...)' % m)
         return None
 
+    def plain(self, st, bind):
+        """a statement without any environment effect of its own"""
+        if isinstance(st, ast.Return):
+            return self.seq([self.call() if st.value is not None and not isinstance(st.value, (ast.Constant, ast.Name)) else 'Skip', 'Ret'])
+        if isinstance(st, ast.Raise):
+            return 'Raise'
+        if isinstance(st, ast.If):
+            return self.seq([self.call() if not isinstance(st.test, (ast.Name, ast.Constant)) else 'Skip',
+                             '(Choice %s %s)' % (self.block(st.body, bind), self.block(st.orelse, bind))])
+        if isinstance(st, ast.Try):
+            return self.try_(st, bind)
+        if isinstance(st, ast.With):
+            return self.seq([self.call(), self.block(st.body, bind)])
+        if isinstance(st, (ast.For, ast.While)):
+            # no environment effect inside: the loop as a whole may raise; return/raise inside it are kept
+            inner = self.block(st.body + st.orelse, bind)
+            return self.seq([self.call(), '(Choice %s Skip)' % inner]) if ('Ret' in inner or 'Raise' in inner) else self.call()
+        if self.trivially_safe(st):
+            return 'Skip'
+        return self.call()
+
     def stmt(self, st, bind):
         if not self.touches(st):
-            if isinstance(st, ast.Return):
-                return self.seq([self.call() if st.value is not None and not isinstance(st.value, (ast.Constant, ast.Name)) else 'Skip', 'Ret'])
-            if isinstance(st, ast.Raise):
-                return 'Raise'
-            if isinstance(st, ast.If):
-                return self.seq([self.call() if not isinstance(st.test, (ast.Name, ast.Constant)) else 'Skip',
-                                 '(Choice %s %s)' % (self.block(st.body, bind), self.block(st.orelse, bind))])
-            if isinstance(st, ast.Try):
-                return self.try_(st, bind)
-            if isinstance(st, ast.With):
-                return self.seq([self.call(), self.block(st.body, bind)])
-            if isinstance(st, (ast.For, ast.While)):
-                # no environment effect inside: the loop as a whole may raise; return/raise inside it are kept
-                inner = self.block(st.body + st.orelse, bind)
-                return self.seq([self.call(), '(Choice %s Skip)' % inner]) if ('Ret' in inner or 'Raise' in inner) else self.call()
-            if self.trivially_safe(st):
-                return 'Skip'
-            return self.call()
+            return self.plain(st, bind)
         # --- statements that touch the environment
+        self.check_strict(st)
         if isinstance(st, ast.Try) and len(st.body) == 1 and isinstance(st.body[0], ast.Assign) \
                 and len(st.handlers) == 1 and not st.finalbody and not st.orelse:
             a = st.body[0]
@@ -182,7 +585,7 @@ class Tr(object):
             key = self.slot_key(a.targets[0], bind) if len(a.targets) == 1 else None
             h = st.handlers[0]
             hname = h.type.id if isinstance(h.type, ast.Name) else None
-            if k is not None and key is not None and hname == 'KeyError' and len(h.body) == 1:
+            if k is not None and key is not None and hname == 'KeyError' and len(h.body) == 1 and not self.touches(h.body[0]):
                 hb = h.body[0]
                 if isinstance(hb, ast.Raise):
                     return '(I (SaveStrict %d %d))' % (self.var(k), self.slot(key))
@@ -233,30 +636,43 @@ class Tr(object):
                             return '(I (RestoreOpt %d %d))' % (self.var(ko), self.slots[key])
                         if isinstance(b, ast.Expr) and self.env_method(b.value, bind) == ('pop', ko):
                             return '(I (RestoreOptPop %d %d))' % (self.var(ko), self.slots[key])
-            if self.touches(st.test):
-                raise Unrecognised('environ in an if-test')
-            return self.seq([self.call() if not isinstance(st.test, (ast.Name, ast.Constant)) else 'Skip',
+            # reads (`K in os.environ`, os.environ.get(K), os.environ[K]) and inlined calls in the test; anything else fails closed
+            return self.seq([self.expr_effects(st.test, bind),
+                             self.call() if not isinstance(st.test, (ast.Name, ast.Constant)) else 'Skip',
                              '(Choice %s %s)' % (self.block(st.body, bind), self.block(st.orelse, bind))])
-        if isinstance(st, ast.For):
+        if isinstance(st, ast.For) and isinstance(st.iter, (ast.Tuple, ast.List)) and not st.orelse:
             # for r in ('a', 'b'):   /   for name, value in (('A', slot_a), ('B', slot_b)):
-            if st.orelse or not isinstance(st.iter, (ast.Tuple, ast.List)):
-                raise Unrecognised('environment touched inside a loop that is not over a literal tuple')
             out = []
             for el in st.iter.elts:
                 b2 = dict(bind)
                 self.bind_target(st.target, el, b2, bind)
                 out.append(self.block(st.body, b2))
             return self.seq(out)
+        if isinstance(st, (ast.For, ast.While, ast.AsyncFor)):
+            if self.direct(st):
+                raise Unrecognised('environment touched inside a loop that is not over a literal tuple')
+            # only through callees: they cannot be placed in the skeleton (how often does the loop run?)
+            self.record_uninlined(st, 'inside a loop')
+            return self.call()
         if isinstance(st, ast.Try):
             return self.try_(st, bind)
         if isinstance(st, ast.With):
+            pre = []
             for it in st.items:
-                if self.touches(it.context_expr):
+                if self.direct(it.context_expr):
                     raise Unrecognised('environ in a with-item')
-            return self.seq([self.call(), self.block(st.body, bind)])
+                pre.append(self.expr_effects(it.context_expr, bind))
+            return self.seq(pre + [self.call(), self.block(st.body, bind)])
         if isinstance(st, ast.Return):
             return self.seq([self.expr_effects(st.value, bind), 'Ret'])
-        # generic statement: environment reads / inlined calls inside an expression, then the rest may raise
+        if not isinstance(st, (ast.Assign, ast.AugAssign, ast.AnnAssign, ast.Expr, ast.Delete, ast.Raise, ast.Assert)):
+            if self.direct(st):
+                raise Unrecognised('environment touched inside a %s statement' % type(st).__name__)
+            self.record_uninlined(st, 'inside a %s statement' % type(st).__name__)
+            return self.call()
+        # generic simple statement: environment reads / inlined calls inside an expression, then the rest may raise
+        if isinstance(st, ast.Raise):
+            return self.seq([self.expr_effects(st, bind), 'Raise'])
         return self.seq([self.expr_effects(st, bind), self.call()])
 
     def bind_target(self, target, el, b2, bind):
@@ -274,43 +690,112 @@ class Tr(object):
         else:
             raise Unrecognised('loop target shape')
 
+    def inline(self, target, node):
+        """(Scope body-of-target); the callee is translated in the context of its own module"""
+        if target in self.stack:
+            self.record_uninlined(node, '(recursive call)')
+            return 'Skip'
+        m2 = self.graph.mods[target[0]]
+        fn = m2.funcs[target[1]]
+        self.stack.append(target)
+        self.modstack.append(m2)
+        self.nscope += 1
+        self.scope.append(self.nscope)
+        try:
+            body = self.block(fn.body, {})
+        finally:
+            self.scope.pop()
+            self.modstack.pop()
+            self.stack.pop()
+        if target not in self.inlined:
+            self.inlined.append(target)
+        return '(Scope %s)' % body
+
     def expr_effects(self, node, bind):
         """Environment reads and inlined helper calls occurring inside an expression/statement, in source order."""
-        out = []
+        tr = self
 
         class V(ast.NodeVisitor):
+            def __init__(s):
+                s.out = []
+
+            def conditional(s, nodes):
+                sub = V()
+                for n in nodes:
+                    sub.visit(n)
+                body = tr.seq(sub.out)
+                if body != 'Skip':
+                    s.out.append('(Choice %s Skip)' % body)
+
             def visit_Subscript(s, n):
                 if is_environ(n.value):
                     if not isinstance(n.ctx, ast.Load):
                         raise Unrecognised('environ store/del nested in a statement')
-                    out.append('(I (ReadReq %d))' % self.var(self.const_str(n.slice, bind)))
+                    s.out.append('(I (ReadReq %d))' % tr.var(tr.const_str(n.slice, bind)))
+                    return
+                s.generic_visit(n)
+
+            def visit_Compare(s, n):
+                if len(n.ops) == 1 and isinstance(n.ops[0], (ast.In, ast.NotIn)) and is_environ(n.comparators[0]):
+                    s.visit(n.left)
+                    s.out.append('(I (SaveOpt %d %d))' % (tr.var(tr.const_str(n.left, bind)), tr.slot('<tmp>')))
                     return
                 s.generic_visit(n)
 
             def visit_Call(s, n):
-                if isinstance(n.func, ast.Attribute) and is_environ(n.func.value):
-                    m = self.env_method(n, bind)
+                m = tr.env_method(n, bind, in_expr=True)
+                if m is not None:
+                    for a in n.args[1:]:
+                        s.visit(a)
                     if m[0] == 'get':
                         # value used in an expression: presence not required
-                        out.append('(I (SaveOpt %d %d))' % (self.var(m[1]), self.slot('<tmp>')))
+                        s.out.append('(I (SaveOpt %d %d))' % (tr.var(m[1]), tr.slot('<tmp>')))
                         return
                     raise Unrecognised('environ.%s nested in an expression' % m[0])
                 for a in list(n.args) + [k.value for k in n.keywords]:
                     s.visit(a)
-                if isinstance(n.func, ast.Name) and n.func.id in self.funcs and self.func_touches(n.func.id):
-                    self.inlined.append(n.func.id)
-                    out.append('(Scope %s)' % self.block(self.funcs[n.func.id].body, {}))
+                if isinstance(n.func, ast.Name):
+                    resolved = sorted(tr.graph.resolve_name(tr.mod, n.func.id))
+                    writers = [t for t in resolved if tr.graph.may_write(t)]
+                    if writers and len(resolved) == 1 and '.' not in resolved[0][1]:
+                        s.out.append(tr.inline(resolved[0], n.func))
+                    elif writers or n.func.id in DYNAMIC_NAMES:
+                        tr.record_uninlined(n, '(not a unique plain function)')
                 else:
                     s.visit(n.func)
+
+            def visit_Name(s, n):
+                if tr.deep(n):
+                    tr.record_uninlined(n, 'as a value')
 
             def visit_Attribute(s, n):
                 if is_environ(n):
                     raise Unrecognised('os.environ used as a whole object')
                 if isinstance(n.value, ast.Name) and n.value.id == 'os' and n.attr in ('putenv', 'unsetenv', 'environb'):
                     raise Unrecognised('os.%s' % n.attr)
-                s.generic_visit(n)
-        V().visit(node)
-        return self.seq(out)
+                if any(nd is n for _, nd, _ in tr.deep(n)):
+                    tr.record_uninlined(n, 'through an attribute')
+                s.visit(n.value)
+
+            def visit_IfExp(s, n):
+                s.visit(n.test)
+                s.conditional([n.body])
+                s.conditional([n.orelse])
+
+            def visit_BoolOp(s, n):
+                s.visit(n.values[0])
+                s.conditional(n.values[1:])
+
+            def scoped(s, n):
+                if tr.direct(n):
+                    raise Unrecognised('environment touched inside a comprehension or lambda')
+                tr.record_uninlined(n, 'inside a comprehension or lambda')
+
+            visit_ListComp = visit_SetComp = visit_DictComp = visit_GeneratorExp = visit_Lambda = scoped
+
+        v = V()
+        v.visit(node)
+        return self.seq(v.out)
 
     def try_(self, st, bind):
         body = self.block(st.body + st.orelse, bind)
@@ -328,41 +813,83 @@ class Tr(object):
         return self.seq([self.stmt(s, bind) for s in stmts])
 
 
-TARGETS = [('window_score', 'pydl/photoop/window.py'), ('template_input', 'pydl/pydlspec2d/spec1d.py')]
+# the entry points named by the property, and the public pydl functions that reach them (nested routes)
+TARGETS = [('window_score', 'pydl/photoop/window.py'), ('template_input', 'pydl/pydlspec2d/spec1d.py'),
+           ('window_read', 'pydl/photoop/window.py'), ('template_input_main', 'pydl/pydlspec2d/spec1d.py')]
+# helpers that change the variables by design and are restored by their caller (anchors: "overwritten by
+# template_metadata, restored at the end of template_input"); not entry points of the property
+HELPERS = ['pydl/pydlspec2d/spec1d.py:template_metadata', 'pydl/pydlspec2d/spec1d.py:_template_input']
+
+
+def coq_strings(items):
+    return '[' + '; '.join('"%s"' % s.replace('"', "'") for s in items) + ']'
 
 
 def generate(repo):
     info = {'recognised': True, 'functions': {}}
     out = ['(* GENERATED by translate/c20.py -- environment skeletons of the entry points of C20; do not edit *)',
-           'From Coq Require Import List.', 'Import ListNotations.', 'From PV Require Import C20.Model.', '']
+           'From Coq Require Import List String.', 'Import ListNotations.', 'From PV Require Import C20.Model.',
+           'Local Open Scope string_scope.', '']
     meta = {}
+    try:
+        graph = Graph(repo)
+    except (Unrecognised, OSError) as e:
+        info['recognised'] = False
+        info['detail'] = 'call graph: %s' % e
+        return None, info
+    uninlined_all = []
+    covered = set()
+    reach_writers = set()
     for fname, rel in TARGETS:
         try:
-            src = open(os.path.join(repo, rel)).read()
-            tr = Tr(ast.parse(src), rel)
-            if fname not in tr.funcs:
+            if rel not in graph.mods or fname not in graph.mods[rel].funcs:
                 raise Unrecognised('function %s not found' % fname)
-            prog = tr.block(tr.funcs[fname].body, {})
+            tr = Tr(graph, rel)
+            tr.stack.append((rel, fname))
+            prog = tr.block(graph.mods[rel].funcs[fname].body, {})
             names = [n for n, _ in sorted(tr.vars.items(), key=lambda kv: kv[1])]
+            inl = [fid(t) for t in tr.inlined]
             out.append('(* %s in %s, line %d; variables: %s; slots: %s; inlined: %s *)' % (
-                fname, rel, tr.funcs[fname].lineno,
+                fname, rel, graph.mods[rel].funcs[fname].lineno,
                 ', '.join('%d=%s' % (i, n) for i, n in enumerate(names)),
                 ', '.join('%d=%s' % (i, k.replace('*', '')) for k, i in sorted(tr.slots.items(), key=lambda kv: kv[1])),
-                ', '.join(sorted(set(tr.inlined))) or '-'))
+                ', '.join(inl) or '-'))
             out.append('Definition %s_vars : list var := [%s].' % (fname, '; '.join(str(i) for i in range(len(names)))))
             out.append('Definition %s_skel : prog :=\n  %s.\n' % (fname, prog))
-            meta[fname] = {'vars': names, 'calls': tr.ncall, 'inlined': sorted(set(tr.inlined)), 'recognised': True}
+            reads = graph.reads((rel, fname))
+            writers = [fid(w) for w in graph.writers((rel, fname))]
+            covered |= set(inl) | {fid((rel, fname))}
+            reach_writers |= set(writers)
+            for u in tr.uninlined:
+                if u not in uninlined_all:
+                    uninlined_all.append(u)
+            meta[fname] = {'vars': names, 'calls': tr.ncall, 'inlined': inl, 'recognised': True,
+                           'reads': sorted(r for r in reads if r != '*'), 'reads_unknown_key': '*' in reads,
+                           'reachable_units': len(graph.reach((rel, fname))), 'reachable_writers': writers,
+                           'uninlined': list(tr.uninlined)}
         except (Unrecognised, SyntaxError, OSError) as e:
             info['recognised'] = False
             meta[fname] = {'recognised': False, 'detail': '%s: %s' % (type(e).__name__, e)}
     info['functions'] = meta
+    all_writers = sorted(fid(f) for f, o in graph.ops.items() if o['writes'])
+    info['env_writers_in_package'] = all_writers
+    info['uninlined_writers'] = uninlined_all
     if not info['recognised']:
         return None, info
+    out.append('(* call graph over %d modules / %d functions of pydl: every unit reachable from an entry point that contains an\n'
+               '   os.environ write must be the entry point itself or inlined in its skeleton *)' % (len(graph.mods), len(graph.ops)))
+    out.append('Definition reachable_env_writers : list string :=\n  %s.' % coq_strings(sorted(reach_writers)))
+    out.append('Definition covered_functions : list string :=\n  %s.' % coq_strings(sorted(covered)))
+    out.append('(* references to environment-writing functions that could not be placed in a skeleton (with the route to the write) *)')
+    out.append('Definition uninlined_writers : list string :=\n  %s.' % coq_strings(uninlined_all))
+    out.append('(* every function of the package that writes the environment at all *)')
+    out.append('Definition package_env_writers : list string :=\n  %s.\n' % coq_strings(all_writers))
     return '\n'.join(out) + '\n', info
 
 
 if __name__ == '__main__':
     import sys
     text, info = generate(sys.argv[1] if len(sys.argv) > 1 else '/repo')
-    print(info)
+    import json
+    print(json.dumps(info, indent=1))
     print(text)
